@@ -263,15 +263,19 @@ def handle (op : String) (j : Json) : Option (Except String Json) :=
       | none => Json.null
     let idsBelow := ir.ids.all (fun k => decide (k < ir.next))
     let newBlocks := match m with
-      | .ins _ _ p => p.text.blocks.all (fun b => (ir.block? b.id).isNone)
+      | .ins _ _ p => p.text.blocks.all (fun b => (ir.block? b.id).isNone && decide (b.id < ir.next)) &&
+          decide ((p.text.blocks.map (·.id)).Nodup)
       | .del _ _ _ => true
+    -- premise of the function-table theorems (Props.C06 / C09): cache and table in step, cache keys are blocks
+    let minv := ir.fbb.all (fun (b, f) => ((alookup f ir.aux.funcBlocks).getD []).contains b && (ir.block? b).isSome) &&
+      ir.aux.funcBlocks.all (fun (f, bs) => bs.all (fun b => alookup b ir.fbb == some f))
     let func : Option Nat := match j.getObjVal? "func" with
       | .ok v => v.getNat?.toOption
       | .error _ => none
     let res : Json := match IR.applyMods origOff func ir (some actual) total [m] with
       | .ok ir' => Json.mkObj [("ir", irJ ir')]
       | .error e => errJson e
-    .ok (Json.mkObj [("ao", ao), ("ids_below", Json.bool idsBelow), ("new_blocks", Json.bool newBlocks), ("res", res)])
+    .ok (Json.mkObj [("ao", ao), ("ids_below", Json.bool idsBelow), ("new_blocks", Json.bool newBlocks), ("minv", Json.bool minv), ("res", res)])
   | _ => none
 
 end Driver.IRJson
